@@ -153,9 +153,11 @@ impl Kind {
             h.extend([29.999999, 60.000001, 119.999, 180.0 - 1e-9, 240.0 + 1e-9, 359.999999, 45.0, 135.0, 225.0, 315.0, 264.05]);
             // hues are angles: values outside one turn are legal and name the same colours
             h.extend([-120.0, -30.0, -330.0, 360.0, 390.0, 480.0, 765.0, -400.0]);
+            // a hair below a whole turn: the unsigned normal form rounds to exactly 360 (f32: -1e-6, f64: -1e-15)
+            h.extend([-1e-6, -1e-15, 719.9999999999999]);
             h
         } else {
-            vec![0.0, 30.0, 60.0, 60.000001, 90.0, 120.0, 150.0, 180.0, 210.0, 240.0, 270.0, 300.0, 330.0, 359.999999, 45.0, 264.05, -120.0, -30.0, 390.0, 480.0]
+            vec![0.0, 30.0, 60.0, 60.000001, 90.0, 120.0, 150.0, 180.0, 210.0, 240.0, 270.0, 300.0, 330.0, 359.999999, 45.0, 264.05, -120.0, -30.0, 390.0, 480.0, 360.0, -1e-6, -1e-15]
         };
         let prod = |a: &[f64], b: &[f64], c: &[f64]| -> Vec<V3> {
             let mut v = Vec::with_capacity(a.len() * b.len() * c.len());
